@@ -308,7 +308,7 @@ def check(run):
             continue
         for lp, rhs, node in consumption.assignment_targets([st]):
             if lp == ("this", "m_block_parameters"):
-                extra = [a for a in conjuncts(g) if not ir.is_item_count_test(a)]
+                extra = ir.without_item_count_tests(conjuncts(g))
                 run.ob("R04.5", "set_block_parameters:always-copies", not extra, sbp, node.get("l", 0),
                        "an empty block always takes over the parameter set handed in" if not extra else
                        "the copy of the block parameters is skipped when %s: the block keeps building under stale hints while the "
